@@ -36,6 +36,8 @@ cvars == <<phase, call, buf, orig, ret, outcome>>
 vars == <<dvars, cvars>>
 
 NSeeds == Len(SeedDoc)
+SeedsUsed == 1..NSeeds                  \* overridden in configurations that leave out the long model documents
+ShortSeeds == {i \in 1..NSeeds : Len(SeedDoc[i]) <= 12}
 RECURSIVE FlatFrom(_, _)
 FlatFrom(d, i) == IF i > Len(d) THEN <<>> ELSE d[i] \o FlatFrom(d, i + 1)
 Flat(d) == FlatFrom(d, 1)
@@ -96,7 +98,7 @@ ReturnErr == /\ phase = "Running" /\ phase' = "Idle" /\ outcome' = "err"
              /\ ret' = IF HasOrig(call.api) THEN (IF AllowInPlace THEN buf ELSE orig) ELSE <<>>
              /\ UNCHANGED <<dvars, call, buf, orig>>
 
-Init == /\ seed \in 1..NSeeds /\ doc = SeedDoc[seed] /\ nest = <<0, 0>> /\ ops = 0 /\ lastop = "seed"
+Init == /\ seed \in SeedsUsed /\ doc = SeedDoc[seed] /\ nest = <<0, 0>> /\ ops = 0 /\ lastop = "seed"
         /\ phase = "Idle" /\ call = [api |-> "none", prec |-> 0] /\ buf = <<>> /\ orig = <<>> /\ ret = <<>> /\ outcome = "none"
 GenNext == Mutate \/ Nest
 Next == Mutate \/ Nest \/ Call \/ EditInPlace \/ ReturnOk \/ ReturnErr
